@@ -218,7 +218,7 @@ func (w *Walker) Reach(fn *ssa.Function, start *ssa.BasicBlock, idx int, target 
 			if w.Removed[edge{it.b, s}] {
 				continue
 			}
-			facts := phiNilFacts(it.facts, it.b, s)
+			facts := phiNilFacts(nilTestFacts(it.facts, it.b, s), it.b, s)
 			if cc != nil {
 				// truth of the canonical condition on this edge
 				truth := (s == it.b.Succs[0]) != cc.neg
@@ -568,6 +568,59 @@ func neverNil(f *ssa.Function, depth int) bool {
 	return false
 }
 
+// nilTestFacts: taking an edge of `v == nil` / `v != nil` tells the path whether v is nil, for values that flow into a
+// phi of the function (the result variable of an expanded helper, a named result): the phi then inherits the fact.
+var phiInputs = map[*ssa.Function]map[ssa.Value]bool{}
+
+func nilTestFacts(facts string, from, to *ssa.BasicBlock) string {
+	if len(from.Instrs) == 0 || len(from.Succs) != 2 || from.Succs[0] == from.Succs[1] {
+		return facts
+	}
+	iff, ok := from.Instrs[len(from.Instrs)-1].(*ssa.If)
+	if !ok {
+		return facts
+	}
+	bo, ok := iff.Cond.(*ssa.BinOp)
+	if !ok || (bo.Op != token.EQL && bo.Op != token.NEQ) {
+		return facts
+	}
+	var v ssa.Value
+	if k, ok := bo.Y.(*ssa.Const); ok && k.Value == nil {
+		v = bo.X
+	} else if k, ok := bo.X.(*ssa.Const); ok && k.Value == nil {
+		v = bo.Y
+	}
+	if v == nil {
+		return facts
+	}
+	fn := from.Parent()
+	ins, ok := phiInputs[fn]
+	if !ok {
+		ins = map[ssa.Value]bool{}
+		for _, b := range fn.Blocks {
+			for _, in := range b.Instrs {
+				if phi, ok := in.(*ssa.Phi); ok {
+					for _, e := range phi.Edges {
+						if _, isConst := e.(*ssa.Const); !isConst {
+							ins[e] = true
+						}
+					}
+				}
+			}
+		}
+		phiInputs[fn] = ins
+	}
+	if !ins[v] {
+		return facts
+	}
+	if in, isInstr := v.(ssa.Instruction); isInstr && in.Block() != nil && inCycle(in.Block()) {
+		return facts // one static value, many dynamic ones
+	}
+	isNil := (to == from.Succs[0]) == (bo.Op == token.EQL)
+	key := fmt.Sprintf("nilv:%p", v)
+	return factAdd(factDel(facts, key), key, isNil)
+}
+
 func phiNilFacts(facts string, from, to *ssa.BasicBlock) string {
 	idx := -1
 	for i, p := range to.Preds {
@@ -594,6 +647,16 @@ func phiNilFacts(facts string, from, to *ssa.BasicBlock) string {
 		}
 		key := fmt.Sprintf("nil:%p", phi)
 		isNil, known := nilClass(phi.Edges[idx])
+		if !known {
+			// the incoming value was tested against nil earlier on this path, or is itself a phi with a known fact
+			if kn, v := factLookup(facts, fmt.Sprintf("nilv:%p", phi.Edges[idx])); kn {
+				isNil, known = v, true
+			} else if q, isPhi := phi.Edges[idx].(*ssa.Phi); isPhi {
+				if kn, v := factLookup(facts, fmt.Sprintf("nil:%p", q)); kn {
+					isNil, known = v, true
+				}
+			}
+		}
 		facts = factDel(facts, key)
 		if known {
 			facts = factAdd(facts, key, isNil)
